@@ -195,9 +195,21 @@ def structured_cases():
     return out
 
 
+def precision_cases():
+    out = []
+    big = float(2 ** 24)
+    for strategy in STRATS:
+        for ab in (AB[0], AB[3]):
+            out.append(mk_case({'f1': big + 1, 'b': big + 2, 'zeta': big, 'A': big + 3}, {}, {}, strategy, ab))
+            out.append(mk_case({'f1': 1.0, 'b': 1.0 + 1e-9, 'zeta': 1.0 - 1e-9, 'A': 0.5}, {('b', 'f1'): 0.25, ('b', 'zeta'): 0.25 + 1e-9}, {}, strategy, ab))
+            out.append(mk_case({'f1': 5.0, 'b': 1.0, 'zeta': 1.0, 'A': 1.0}, {('f1', 'b'): big, ('f1', 'zeta'): big + 1, ('f1', 'A'): big + 2}, {}, strategy, ab))
+            out.append(mk_case({'f1': 5.0, 'b': 0.0, 'zeta': 0.0, 'A': 0.0}, {}, {('f1', 'b'): 1e-9, ('f1', 'zeta'): 2e-9, ('f1', 'A'): 3e-9}, strategy, ab))
+    return out
+
+
 def _structured(_):
     st = Stats()
-    for case in structured_cases():
+    for case in structured_cases() + precision_cases():
         fails = run_case(case)
         st.count('evaluations')
         st.count('structured')
